@@ -5,7 +5,8 @@
 import json, os, shutil, subprocess, sys
 pid, name = sys.argv[1], sys.argv[2]
 checks = sys.argv[3:] or [pid]
-src = "/tmp/seed/%s/%s" % (pid, name)
+root = os.environ.get("SEED_ROOT", "/tmp/seed")
+src = "%s/%s/%s" % (root, pid, name)
 wt = "/work/mut"
 def sh(cmd, **kw):
     p = subprocess.run(cmd, shell=True, stdout=subprocess.PIPE, stderr=subprocess.STDOUT, text=True, **kw)
@@ -17,7 +18,7 @@ sh("git -C %s reset -q --hard %s && git -C %s clean -fdq" % (wt, head, wt))
 meta = json.load(open(src + "/meta.json"))
 demo = meta.get("demo_cmd", "").split("   (")[0].split("  (")[0].split("  #")[0].strip()
 # normalise the demo command to run against the scratch worktree
-cmd = demo.replace("/tmp/seed/%s-wt" % pid, wt).replace("<repo>", wt)
+cmd = demo.replace("%s/%s-wt" % (root, pid), wt).replace("<repo>", wt)
 if wt not in cmd:
     cmd = cmd + " " + wt
 rc0, o0 = sh(cmd, timeout=900)
